@@ -114,7 +114,7 @@ impl Scenario for Events {
     fn runs(&self, tier: Tier) -> u64 {
         match tier {
             Tier::Quick => 400000,
-            Tier::Thorough => 40000000,
+            Tier::Thorough => 20000000,
         }
     }
     fn declare(&self, cov: &mut Cov) {
